@@ -19,9 +19,8 @@ RULE = ("all labelled rooted forests on n <= 4 (quick) / n <= 5 (thorough, <= 72
         "as trailing untyped names / never on a left-hand side x every permutation of the lines; every ordered pair of "
         "types for is_sub_type and create_type_hierarchy_graph; use sites on 2 declarations per forest: fact, fluent, "
         "constant-argument acceptance for every (object type, required type) pair, forall-precondition truth and "
-        "forall-effect range for every quantified type. non-trivial = a forest of depth >= 2")
-ASSUMPTIONS = ["type names are plain lower-case identifiers; 'either' types are C01's out-of-fragment business",
-               "forall use sites are run in a domain without constants (ranging over constants is exercised by C02 / C03)"]
+        "forall-effect range for every quantified type, also in a domain with one constant per type under an empty object table and under one object per type. non-trivial = a forest of depth >= 2")
+ASSUMPTIONS = ["type names are plain lower-case identifiers; 'either' types are C01's out-of-fragment business"]
 CASE_TIMEOUT = 120
 NAMES = ["a", "b", "c", "d", "e"]
 
@@ -162,6 +161,7 @@ def check_use_sites(r, case, par, text, what):
         f"(:action chk_{t} :parameters () :precondition (and (forall (?z - {t}) (and (mk ?z)))) :effect (and (r)))\n"
         f"(:action clr_{t} :parameters () :precondition (and) :effect (and (forall (?z - {t}) (when (mk ?z) (not (mk ?z))))))"
         for t in allt)
+    actions_q = actions
     twin = "\n".join(
         f"(:action two_{t}_{u} :parameters () :precondition (and (forall (?z - {t}) (and (mk ?z))) "
         f"(forall (?z - {u}) (and (mk2 ?z)))) :effect (and (r)))" for t in allt for u in allt if t != u)
@@ -238,6 +238,48 @@ def check_use_sites(r, case, par, text, what):
                        f"{'accepted' if not isinstance(got, Raised) else 'rejected'}, expected "
                        f"{'accepted' if want else 'rejected'}", want, not isinstance(got, Raised),
                        tags=case["tags"] + [what, "goal"])
+                return
+    # quantifier ranges in a domain WITH constants (one per type), under two object tables: constants only (an empty
+    # (:objects) section - the table handed to the operator is empty, not missing) and one object per type as well.
+    # (mk ?x - object) is declared on the root, so a fact never tells the type of its argument: the declared types do
+    from pddl_plus_parser.multi_agent.common import create_initial_state as _cis2
+    Dc = guard(parse_domain, domain_text(text, f"(:constants {consts})\n" + base + actions_q))
+    if isinstance(Dc, Raised):
+        r.fail("use-site-domain-rejected", f"(:types {text}): quantifier domain with constants raised {Dc}", "parsed", str(Dc),
+               tags=case["tags"] + [what])
+        return
+    for table, otext in (("constants-only", ""), ("objects-and-constants", objs)):
+        pre = ["k"] if not otext else ["k", "o"]
+        for rho in allt:
+            in_range = [f"{x}_{t}" for t in allt if sub(t, rho) for x in pre]
+            everything = [f"{x}_{t}" for t in allt for x in pre]
+            # mention: every object and constant also occurs in a fact of the root-typed (mk2 ?x - object), so a reading of
+            # types off the state's facts would see it as an 'object'
+            for missing, mention in [(m, k) for m in [None] + in_range for k in (False, True)]:
+                marks = " ".join(f"(mk {e})" for e in in_range if e != missing)
+                if mention:
+                    marks += " " + " ".join(f"(mk2 {e})" for e in everything)
+                prob = guard(parse_problem, f"(define (problem p) (:domain t) (:objects {otext}) (:init {marks}) (:goal (and)))", Dc)
+                if isinstance(prob, Raised):
+                    r.fail("use-site-domain-rejected", f"problem with (:objects {otext}) rejected: {prob}", "parsed", str(prob),
+                           tags=case["tags"] + [what, table])
+                    return
+                got = guard(lambda: operator(Dc, f"chk_{rho}", [], prob.objects).is_applicable(_cis2(prob)))
+                r.count("transitions")
+                if got is not (missing is None):
+                    r.fail("forall-precondition-range", f"(:types {text}) (:constants {consts}) [{table}]: forall (?z - {rho}) (mk ?z) "
+                           f"with every object and constant in range marked except {missing}{' (all mentioned in mk2 facts)' if mention else ''} -> {got}, expected {missing is None}",
+                           missing is None, str(got), tags=case["tags"] + [what, table])
+                    return
+            prob = guard(parse_problem, f"(define (problem p) (:domain t) (:objects {otext}) (:init "
+                         + " ".join(f"(mk {e}) (mk2 {e})" for e in everything) + ") (:goal (and)))", Dc)
+            nxt = guard(lambda: observe_state(operator(Dc, f"clr_{rho}", [], prob.objects).apply(_cis2(prob))))
+            r.count("transitions")
+            want_atoms = {("mk", e) for e in everything if e not in in_range} | {("mk2", e) for e in everything}
+            if isinstance(nxt, Raised) or set(nxt.atoms) != want_atoms:
+                r.fail("forall-effect-range", f"(:types {text}) (:constants {consts}) [{table}]: forall (?z - {rho}) effect left "
+                       f"{sorted(nxt.atoms) if not isinstance(nxt, Raised) else nxt}, expected {sorted(want_atoms)}",
+                       sorted(want_atoms), str(nxt), tags=case["tags"] + [what, table])
                 return
     # quantifier ranges; a second object of every type is declared after all the first ones (objects of one type are
     # not neighbours in the declaration), and must be ranged over like the first
